@@ -18,6 +18,17 @@ pub mod gtext {
         pub n: usize,
     }
 
+    impl PartialEq for String {
+        fn eq(&self, o: &String) -> bool {
+            self.eq_text(o)
+        }
+    }
+    impl Eq for String {}
+    impl core::fmt::Debug for String {
+        fn fmt(&self, _f: &mut core::fmt::Formatter<'_>) -> core::fmt::Result {
+            Ok(())
+        }
+    }
     impl Default for String {
         fn default() -> Self {
             Self::new()
